@@ -75,7 +75,7 @@ def gen_base(rng, tier, index):
             "thread_reads_during_fork": (index // 4) % 9 if index % 4 == 1 else None,
             "iter_across_fork": rng.randrange(50) if index % 4 in (0, 3) else None,
             "other_object": [None, "parent_before_fork", "child_first"][index % 3],
-            "fd_tight": index % 6 == 0, "global_start_method": ["spawn", "forkserver"][index % 2] if index % 5 == 2 else None}
+            "fd_tight": index % 6 == 0, "twin_objects": index % 4 == 2, "child_thread": index % 4 == 1, "global_start_method": ["spawn", "forkserver"][index % 2] if index % 5 == 2 else None}
 
 
 def findings(case, result, res):
